@@ -24,7 +24,7 @@ def main() -> int:
     prop = a.prop.upper()
     rc = core.run_check(f"checks.{prop.lower()}", tier, seed, a.replay, a.nproc)
     if a.replay is None and rc in (0, 1):
-        ev = os.path.join(core.VERIF, "evidence", f"{prop}.json")
+        ev = os.path.join(core.evidence_dir(), f"{prop}.json")
         val = os.path.join(core.VERIF, "tools", "validate_evidence.py")
         try:
             p = subprocess.run(["python3-vt", val, ev], capture_output=True, text=True)
